@@ -131,9 +131,19 @@ func inject(s string) []injected {
 				add("missing-semicolon", string(rs[:o])+" "+string(rs[o+1:]), nt.Line, nt.Col)
 			}
 		}
-		// 3. a quoted string where a keyword must stand
+		// 3. a quoted string where a keyword must stand (also one that spans lines: the position is
+		// that of its opening quote)
 		if t.Kind == 0 && (ti == 0 || toks[ti-1].Kind >= 2) {
-			add("quoted-keyword", string(rs[:o])+"\""+t.Text+"\""+string(rs[o+len([]rune(t.Text)):]), t.Line, t.Col)
+			rest := string(rs[o+len([]rune(t.Text)):])
+			add("quoted-keyword", string(rs[:o])+"\""+t.Text+"\""+rest, t.Line, t.Col)
+			add("quoted-keyword-multiline", string(rs[:o])+"\""+t.Text+"\n é\""+rest, t.Line, t.Col)
+			add("quoted-keyword-multiline", string(rs[:o])+"'"+t.Text+"\n\n'"+rest, t.Line, t.Col)
+		}
+		// 3b. a (multi-line) quoted string where ';' or '{' is expected: after "keyword argument"
+		if t.Kind == 2 && ti >= 2 && (toks[ti-1].Kind == 0 || toks[ti-1].Kind == 1) && toks[ti-2].Kind == 0 && (ti-2 == 0 || toks[ti-3].Kind >= 2) {
+			// the inserted string stands right where the ';' stood, separated by a blank
+			add("string-instead-of-terminator", string(rs[:o])+" \"z\n z\""+string(rs[o:]), t.Line, t.Col+1)
+			add("string-instead-of-terminator", string(rs[:o])+" 'z\n\tz' "+string(rs[o:]), t.Line, t.Col+1)
 		}
 		if t.Kind == 1 && t.Double {
 			// 4. invalid escape right after the opening quote
